@@ -211,6 +211,8 @@ func runC14(c *core.Ctx) {
 		}
 	})
 	// the default configuration location is covered by C16; here the explicit ones
+	// selection by instants that differ only in the fraction of a second (shared with C06)
+	c06SubSecond(c, [][]string{{"print"}})
 	jobs, deaths := pool.Stats()
 	c.Count("l2_jobs", jobs)
 	c.Count("l2_process_deaths", deaths)
